@@ -1,25 +1,54 @@
 """F-NAME: every string-relational operation on a module-name-typed value must respect dotted-component boundaries.
 
 Module-name-typed values are found by provenance (tag NAME of the flow engine), not by variable names:
-  `.identifier` / `.parent_module` / `.name` of module filters and modules, results of Import.importer()/importee()/..._parent_modules(),
-  get_parent_modules(..), Parser._get_module_name(..), nodes of the graph (`.nodes`, `arch.modules`), parameters annotated
-  Node / AbstractNode / ModuleName, names read from import statements (`alias.name`, `<ImportFrom>.module`), keys of the plot
-  `aliases` mapping - and everything these flow into (assignments, containers, calls, fields).
+  `.identifier` / `.parent_module` of module filters and modules (public API), results of Import.importer()/importee()/
+  ..._parent_modules(), get_parent_modules(..), get_node(..), nodes of the graph (`.nodes`, `arch.modules`), parameters annotated
+  Node / AbstractNode / ModuleName, names read from import statements (`alias.name`, `<ImportFrom>.module`), a path turned into
+  dot notation (`str(path).replace(os.sep, ".")`), the public `aliases` option of draw() - and everything these flow into
+  (assignments, containers, calls, fields, closures).
 
-Operations (one `Site` each):
-  group "relation"   startswith / endswith / removeprefix / removesuffix / find / index / count / replace / partition with a non-'.' needle,
-                     `a in b` on strings, re.* with a pattern built from a value, slicing by len(other), slicing by an index
-                     (`x[:x.rfind('.')]`, `x[:i]`)
-  group "separator"  the separator of split / partition of a name and of the join of its components; the constants characters of a
-                     name are compared with
-  group "extent"     component-wise comparison through zip (stops at the shorter list: an ancestor of the prefix compares equal)
+Operations (one `Site` each, `Site.group` says which kind of obligation it is):
+  group "relation"   startswith / endswith / removeprefix / removesuffix / find / index / count / replace / partition / split with a
+                     non-constant needle, strip-family with a name as character set, `a in b` on strings, re.* / fnmatch with a
+                     pattern built from a value, os.path.commonprefix, zip over the characters of two names, case folding before a
+                     comparison, slicing by len(other), a slice compared with the other string (`x[:len(p)] == p`), slicing by an
+                     index (`x[:x.rfind('.')]`, `x[:i]`), bound / unbound str methods handed to map / filter
+  group "separator"  the constant a name is split / partitioned / searched at, the separator its components are joined with, the
+                     constants the characters of a name are compared with, prefixes accumulated character by character,
+                     constants replaced by the separator
+  group "extent"     component-wise comparison through zip (stops at the shorter list: an ancestor of the prefix compares equal);
+                     respects boundaries, so it is not a C14 matter - C10.R2 consumes it
 
-Verdicts: safe | unsafe | unknown (cannot be classified: the check gives no verdict) | not-name | reviewed | unclassified.
-The classification uses two provers over the value of the *needle*:
-  * `dot_status` (must): follows the value to the expressions it originates from - through locals, loop and comprehension
-    targets, tuple positions, containers and their mutators, fields, parameters (every call site) and return values - and decides
+Verdicts: safe | unsafe | unknown (cannot be classified: the check gives no verdict) | not-name (lexical test with a constant /
+not a name) | reviewed (user-supplied regex, recognised by role) | unclassified (provenance and static type unknown: not armed).
+
+Accepted (safe) idioms, in all their spellings - locals, helpers (private predicates are inlined), callers, loops, comprehensions:
+  * the prefix provably ends with the separator: `p + "."`, f"{p}.", "{}.".format(p), "%s." % p, ".".join([p, ""]),
+    `p if p.endswith(".") else p + "."`, `if not p.endswith("."): p += "."`, constants given by name (module / class level,
+    parameter defaults), prefixes precomputed in tuples, lists, dicts (values, `.items()`), fields, properties, generators,
+    handed through parameters (every call site), closures, partial / map / lru_cache'd helpers;
+  * a raw prefix test whose next character is tested (`x[len(p)] == "."`, `x[len(p):][:1] in ("", ".")`), also as a predicate
+    function, or whose remainder (`x[len(p):]`, `x.removeprefix(p)`) is only tested to be empty / to start with '.';
+  * `x[len(p):]` / `x.removeprefix(p)` where `x == p or x.startswith(p + ".")` holds on every path to the cut - in the function,
+    in every caller of a small helper, by selecting p from a filtered collection (next / comprehension / filter / max), or
+    because p was returned by a helper that selects it that way, or p is x or one of get_parent_modules(x);
+  * `x[:len(p) + 1] == p + "."`, `x[:len(q)] == q` with q ending in '.', suffixes starting with '.';
+  * cuts at an index that is the position of a separator: find / rfind('.') guarded by `!= -1` / `>= 0` / `"." in x` (if, while,
+    conditional expression, walrus), `+ 1` past it, index / rindex, enumerate / range(len) positions tested to hold '.',
+    positions collected by such a test, regex matches of r"\.";
+  * split / rsplit / partition / rpartition / count / find at '.', join of components with '.' (or of '.'-decorated components
+    with ''), characters compared with '.' only, '.' replaced (name -> path), components joined with '/';
+  * regexes built from an escaped name that continue with a boundary (`(\.|$)`, `\.`, `\b`) or are matched with fullmatch;
+    user-supplied regexes (identifier of filters of static type ModuleNameRegexFilter or selected by `identifier_is_regex`);
+  * both operands of `in` enclosed in separators; glob patterns that continue with ".".
+Everything else on a name is `unsafe` when the needle is provably a plain name, `unknown` when that cannot be established.
+
+The classification of a needle uses two provers:
+  * `dot_status` (must): follows the value to the expressions it originates from (class `Origins`: locals, loop and comprehension
+    targets with their scopes, tuple positions, containers and their mutators, dict values, fields, properties, constructor
+    arguments of dataclasses, parameters at every call site incl. defaults / partial / map, return and yield values) and decides
     whether every origin ends with the separator ('dot') or every origin is a plain name ('bare');
-  * the flow tag DOT (may): a value into which no string ending in '.' was ever concatenated is a plain name.
+  * the flow tag DOT (may): a value that carries names and into which no string ending in '.' was ever concatenated is a plain name.
 """
 
 from __future__ import annotations
@@ -2176,6 +2205,9 @@ def _scan(repo: Repo) -> list[Site]:
                             sites.append(Site(f, n, op, hay, needle, True, "not-name", f"constant prefix {const!r}: a lexical test, not a relation between two module names"))
                             continue
                         parts = needle.elts if isinstance(needle, ast.Tuple) else [needle]
+                        if isinstance(needle, ast.Tuple) and parts and all(_const_str(x) is not None and not _const_str(x).endswith(".") for x in parts):
+                            sites.append(Site(f, n, op, hay, needle, True, "not-name", "constant prefixes: a lexical test, not a relation between two module names"))
+                            continue
                         sts = {needle_status(repo, f, p) for p in parts}
                         st = sts.pop() if len(sts) == 1 else ("bare" if "bare" in sts else "unknown")
                         safe = st == "dot" or _boundary_companion(f, n, hay, needle)
@@ -2214,7 +2246,7 @@ def _scan(repo: Repo) -> list[Site]:
                             continue
                         safe = const is not None and "NAME" not in ntags
                         repl = _const_str(n.args[1]) if len(n.args) > 1 else None
-                        if safe and const != "." and repl is not None and "." in repl:
+                        if safe and const not in (".", "/", "\\") and repl is not None and "." in repl:
                             sites.append(Site(f, n, op, hay, needle, True, "unsafe", f"`{norm(n, 80)}`: {const!r} inside a module name is turned into the separator - different names become one", "separator"))
                             continue
                         why = "replaces a constant" if safe else f"`{norm(n, 80)}`: str.replace substitutes every occurrence of one module name inside another, not a leading run of whole components"
@@ -2230,6 +2262,8 @@ def _scan(repo: Repo) -> list[Site]:
                     elif "COMP" not in tagged(elt):
                         continue
                     sep = _const_str(n.func.value)
+                    if sep in ("/", "\\"):
+                        continue  # a module name written as a path
                     decorated = elt is not None and (_starts_with_dot(elt) or dot_status(repo, f, elt) == "dot")
                     if comp is not None and not isinstance(elt, ast.Name) and not decorated:
                         continue  # text built from components (a message), not a name
@@ -2304,7 +2338,14 @@ def _scan(repo: Repo) -> list[Site]:
                     if s is None:
                         continue  # a NAME-tagged value of unknown static type may be a collection of names
                     if "NAME" in tags or "NAME" in tagged(needle):
-                        if isinstance(needle, ast.Constant) and isinstance(needle.value, str):
+                        folded = _const_str(needle)
+                        if folded is None and "NAME" not in tagged(needle) and isinstance(needle, (ast.Name, ast.Attribute)):
+                            folded = fold(repo, f.module, needle, f) or (_attr_constant(repo, T, f, needle) if isinstance(needle, ast.Attribute) else None)
+                        if folded is not None:
+                            needle_c = ast.Constant(value=folded)
+                            ok = folded == "."
+                            sites.append(Site(f, n, "in", hay, needle, True, "safe" if ok else "not-name", "tests for the separator only" if ok else f"constant {folded!r} searched in a name: a lexical test, not a relation between two module names", "separator" if ok else "relation"))
+                        elif isinstance(needle, ast.Constant) and isinstance(needle.value, str):
                             ok = needle.value == "."
                             sites.append(Site(f, n, "in", hay, needle, True, "safe" if ok else "not-name", "tests for the separator only" if ok else f"constant {needle.value!r} searched in a name: a lexical test, not a relation between two module names", "separator" if ok else "relation"))
                         elif "NAME" not in tags and _is_str(T, f, needle) is not True:
